@@ -1241,3 +1241,11 @@ V("C07", "benign-cpu-line-count-two-steps", L,
 V("C03", "helpers-lose-translator", L,
   ("    @wrap_exceptions\n    @memoize_when_activated\n    def _read_status_file(self):",
    "    @memoize_when_activated\n    def _read_status_file(self):"), "fires:C03.R1")
+V("C17", "xdecref-became-decref-users", UC,
+  ("    Py_XDECREF(py_tuple);\n    Py_DECREF(py_retlist);", "    Py_DECREF(py_tuple);\n    Py_DECREF(py_retlist);"),
+  "fires:C17.R5")
+V("C17", "xdecref-became-decref-disk", "psutil/arch/linux/disk.c",
+  ("    Py_XDECREF(py_dev);", "    Py_DECREF(py_dev);"), "fires:C17.R5")
+V("C17", "benign-decref-under-null-test", UC,
+  ("    Py_XDECREF(py_tuple);\n    Py_DECREF(py_retlist);",
+   "    if (py_tuple != NULL)\n        Py_DECREF(py_tuple);\n    Py_DECREF(py_retlist);"), "silent")
